@@ -66,13 +66,37 @@ def rule_p1(chk: Check, ir, I):
 
 
 def rule_p2(chk: Check, ix: Index, ir):
+    import types
+    from .. import constfold
+    from ..pyflow import stmt_paths
     f = ix.get("Parser.is_adjacent")
-    src = {norm_stmt(s) for s in f.node.body}
     chk.count("P2-adjacency")
-    ok = "end = prev.end if isinstance(prev, TokenInfo) else (prev.end_lineno, prev.end_col_offset)" in src and \
-        "start = curr.start if isinstance(curr, TokenInfo) else (curr.lineno, curr.col_offset)" in src and "return end == start" in src
-    chk.require(ok, "P2-adjacency", "Parser.is_adjacent", f.where,
-                "two pieces are one word exactly when the end (line, column) of the previous equals the start (line, column) of the next")
+
+    class FakeTok:
+        def __init__(self, start, end):
+            self.start, self.end = start, end
+
+    def node(start, end):
+        return types.SimpleNamespace(lineno=start[0], col_offset=start[1], end_lineno=end[0], end_col_offset=end[1])
+
+    params = [a.arg for a in f.node.args.args if a.arg not in ("self", "cls")]
+    bad = []
+    try:
+        for mk_prev in (FakeTok, node):
+            for mk_cur in (FakeTok, node):
+                for pe, cs, want in (((1, 5), (1, 5), True), ((1, 5), (1, 6), False), ((1, 5), (2, 5), False), ((3, 0), (2, 0), False),
+                                     ((2, 5), (2, 5), True)):
+                    prev = mk_prev((pe[0] - 1 if pe[0] > 1 else 1, 0), pe)   # a piece that may start on an earlier line
+                    cur = mk_cur(cs, (cs[0], cs[1] + 2))
+                    got = constfold.eval_pure_function(f.node, {params[0]: prev, params[1]: cur}, extra={"TokenInfo": FakeTok},
+                                                       data_attrs=("start", "end", "lineno", "col_offset", "end_lineno", "end_col_offset"))
+                    if bool(got) != want:
+                        bad.append((mk_prev.__name__, pe, mk_cur.__name__, cs, got))
+    except (constfold.PureEvalError, IndexError) as e:
+        bad.append(("not evaluable", str(e)))
+    chk.require(not bad, "P2-adjacency", "Parser.is_adjacent", f.where,
+                f"two pieces are one word exactly when the end (line, column) of the previous equals the start (line, column) of the next; "
+                f"differs on (previous kind, its end, next kind, its start, result) = {bad[:2]}")
     g = ix.get("Parser._proc_args")
     loops = [n for n in own_nodes(g.node) if isinstance(n, ast.For)]
     chk.count("P2-adjacency")
@@ -80,32 +104,56 @@ def rule_p2(chk: Check, ix: Index, ir):
     chk.require(ok, "P2-adjacency", "Parser._proc_args:order", g.where,
                 "the pieces must be walked in source order (a plain loop over `args`, no sorting/reversal)")
     if ok:
-        body = loops[0].body
-        adj = [n for n in body if isinstance(n, ast.If) and "self.is_adjacent(stash, ar)" in norm_stmt(n.test)]
+        # one iteration, as a path set: the piece is appended exactly once; the word so far is emitted first exactly when there is
+        # one and the piece is not adjacent to it, and the new word then starts from nothing
         chk.count("P2-adjacency")
-        good = len(adj) == 1 and [norm_stmt(s) for s in adj[0].body] == ["stash = self._append_node_or_token(stash, ar)"] and \
-            [norm_stmt(s) for s in adj[0].orelse] == ["yield stash", "stash = self._append_node_or_token(None, ar)"]
-        chk.require(good, "P2-adjacency", "Parser._proc_args:split", g.where,
-                    "adjacent pieces are glued onto the current word; otherwise the word is emitted first and a new one started")
+        var = norm_stmt(loops[0].target)
+        why = ""
+        try:
+            for pth in stmt_paths(loops[0].body):
+                eff = [x[1] for x in pth if x[0] == "do"]
+                conds = [(x[1], x[2]) for x in pth if x[0] == "cond"]
+                appends = [e for e in eff if "_append_node_or_token(" in e]
+                if len(appends) != 1 or not appends[0].startswith("stash = self._append_node_or_token(") or not appends[0].endswith(f", {var})"):
+                    why = f"a path appends the piece {len(appends)} times: {eff}"
+                    break
+                onto_none = appends[0] == f"stash = self._append_node_or_token(None, {var})" or \
+                    ("stash = None" in eff and eff.index("stash = None") < eff.index(appends[0]))
+                emitted = "yield stash" in eff
+                # what the path knows
+                has_word = any((c in ("stash", "stash is not None") and t) or (c in ("not stash", "stash is None") and not t) or
+                               (c.startswith("stash and ") and t) for c, t in conds)
+                no_word = any((c in ("stash", "stash is not None") and not t) or (c in ("not stash", "stash is None") and t) for c, t in conds)
+                apart = any((c == f"self.is_adjacent(stash, {var})" and not t) or (c == f"not self.is_adjacent(stash, {var})" and t) or
+                            (c == f"stash and (not self.is_adjacent(stash, {var}))" and t) or (c == f"stash and not self.is_adjacent(stash, {var})" and t)
+                            for c, t in conds)
+                if emitted != (apart and not no_word):
+                    why = f"under {conds} the word so far is {'emitted' if emitted else 'kept'}"
+                    break
+                if emitted and (not onto_none or eff.index("yield stash") > eff.index(appends[0])):
+                    why = "after emitting a word the next one must start from nothing, and the emission comes first"
+                    break
+                if not emitted and onto_none and not no_word:
+                    why = f"under {conds} the word so far is dropped without being emitted"
+                    break
+        except AnalysisError as e:
+            why = f"loop body not analysable: {e}"
+        chk.require(not why, "P2-adjacency", "Parser._proc_args:split", g.where,
+                    f"adjacent pieces are glued onto the current word; otherwise the word is emitted first and a new one started ({why})")
         chk.count("P2-adjacency")
         tail = [norm_stmt(s) for s in g.node.body if isinstance(s, ast.If)]
-        chk.require(any(t.startswith("if stash: yield stash") for t in tail), "P2-adjacency", "Parser._proc_args:last", g.where,
-                    "the last word must be emitted after the loop")
+        chk.require(any(t.startswith(("if stash: yield stash", "if stash is not None: yield stash")) for t in tail), "P2-adjacency",
+                    "Parser._proc_args:last", g.where, "the last word must be emitted after the loop")
     # hand-shifted start columns break positional adjacency
     from .c04 import rule_adjusted_location
     rule_adjusted_location(chk, ir, "P2-adjusted-location")
 
 
 def rule_p3(chk: Check, ix: Index, ir):
-    f = ix.get("Tokenizer.is_blank")
-    first = f.node.body[0]
-    chk.count("P3-whitespace-tokens")
-    ok = isinstance(first, ast.If) and norm_stmt(first.test) == "self._proc_macro and tok.type == Token.WS" and \
-        norm_stmt(first.body[0]) == "return False"
-    drops = any(isinstance(n, ast.If) and "Token.WS" in norm_stmt(n.test) and "Token.NL" in norm_stmt(n.test) and norm_stmt(n.body[0]) == "return True"
-                for n in f.node.body)
-    chk.require(ok and drops, "P3-whitespace-tokens", "Tokenizer.is_blank", f.where,
-                "whitespace tokens are dropped (so words are split by position only) except while a subprocess macro captures raw text")
+    # whitespace tokens are dropped (words are split by position only) except while a subprocess macro captures raw text:
+    # the token filter as a truth table (shared with C01/C09)
+    from .c01 import rule_is_blank
+    rule_is_blank(chk, "P3-whitespace-tokens")
     for r, k, a in actions.all_alts(ir.rules):
         for it in walk_alt_items(a):
             if isinstance(it, Tok) and it.name == "WS":
